@@ -2,7 +2,7 @@
 import json
 import os
 
-from rules import hirq, mirq, visit
+from rules import hirq, mirq, visit, origins
 from rules.core import walk, norm_path, AnchorMissing, VERIF
 
 LEVEL = "other"
@@ -320,6 +320,35 @@ def r7_visit(run, F):
     run.require(n >= 30, "too few visit obligations (%d)" % n)
 
 
+def r8_structural(run, F):
+    """Each member expression of a structure literal is unified with the declared type of that member (put_symbol, as
+    for an assignment to the member) and a conflict poisons the member."""
+    st = F.body("alpha::typer::analyze_structural")
+    ps = [c for c in hirq.calls(st["hir"]) if hirq.callee(c) == "alpha::typer::Typer::put_symbol"]
+    ok = False
+    det = "no call of Typer::put_symbol in analyze_structural"
+    for c in ps:
+        o0 = origins.origins(st["hir"], c["a"][0], st.get("params", ()))
+        o1 = origins.origins(st["hir"], c["a"][1], st.get("params", ()))
+        has_name = ("field", "name") in o0
+        has_type = any(x[0] == "call" and x[1].endswith("as alpha::typer::Typed>::value_type") for x in o1) and \
+            any(x[0] == "call" and x[1].endswith("as alpha::typer::Analyzable>::analyze") for x in o1) and ("field", "expression") in o1
+        det = "put_symbol(member name: %s, type of the analysed member expression: %s)" % (has_name, has_type)
+        ok = ok or (has_name and has_type)
+    run.ob("R8-STRUCTURAL-MEMBERS", "unified with the member type", ok, F.where(st, ps[0] if ps else None),
+           "a structure literal must unify each member expression with the member's declared type "
+           "(otherwise `S { x: 5u64 }` with `x: i32` is accepted and builds an ill-typed insertvalue): " + det)
+    used = False
+    for path, n in hirq.constructs(st["hir"]):
+        if hirq.short(path).endswith("MemberExpression") and n.get("k") == "Struct":
+            for f in n.get("fields", []):
+                if f.get("name") == "name":
+                    o = origins.origins(st["hir"], f["e"], st.get("params", ()))
+                    used = ("call", "alpha::typer::Typer::put_symbol") in o and ("call", "alpha::error::Poison::Error") in o
+    run.ob("R8-STRUCTURAL-MEMBERS", "conflict poisons the member", used, F.where(st),
+           "the result of put_symbol must decide the member's name/poison (a discarded Err would accept the literal)")
+
+
 def check(run):
     F = run.facts("B")
     r1_tables(run, F)
@@ -329,9 +358,10 @@ def check(run):
     r5_unification(run, F)
     r6_codes(run, F)
     r7_visit(run, F)
+    r8_structural(run, F)
     if run.tier == "thorough":
         FA = run.facts("A")
         run.key_prefix = "cfgA:"
-        for fn in (r1_tables, r2_wiring, r3_r5_relations, r4_calls, r5_unification, r6_codes, r7_visit):
+        for fn in (r1_tables, r2_wiring, r3_r5_relations, r4_calls, r5_unification, r6_codes, r7_visit, r8_structural):
             fn(run, FA)
         run.key_prefix = ""
